@@ -80,6 +80,20 @@ NEEDS = {
     "C18-5": "add_sensitivity through a slice of a slice while the root signal has no sensitivity yet (first contribution after construction or root.reset())",
     "C19-5": "finite_difference on an input whose state is a non-C-contiguous array (Fortran-ordered, transposed view, reversed 1-D view) with a dense sensitivity",
     "C20-5": "WriteToVTI with an extension-less saveto, overwrite=False and at least two calls: every iteration lands in the same <stem>.vti",
+    "C02-6": "a Signal constructed with an ndarray sensitivity (allocation kept on reset), after a reset(), whose buffer is filled through a SignalSlice consumer or a direct seed before a whole-signal contribution arrives (first term copied over the buffer instead of added)",
+    "C03-6": "OverhangFilter fed directly by a caller-owned array that is updated IN PLACE (x[:] = ..., x += ...) between two response() calls (unchanged-input shortcut compares against a reference, not a copy)",
+    "C04-6": "sparse EigenSolve with both outputs seeded in one sensitivity() call where the eigenvector seed has an all-zero column for a mode whose eigenvalue seed is non-zero",
+    "C05-6": "a Fortran-ordered (or transposed-view) dense matrix handed to SolverDenseLU (directly, via auto_determine_solver or LDAWrapper): lu(overwrite_a=True) factorises inside the caller's buffer",
+    "C06-6": "two live LDAWrapper objects used alternately (storage lists became class attributes shared by all instances)",
+    "C07-6": "SystemOfEquations constructed with only one of free= / prescribed= whose index array is not ascending, values on that set not all equal",
+    "C10-6": "a size-1 design-variable signal listed after at least one multi-entry array signal (written back from xval[i] instead of xval[cumlens[i]])",
+    "C11-6": "sparse complex Hermitian problem with the default sorting and wanted eigenvalues on both sides of the shift (eigsh delegates to eigs: values ordered by distance to sigma, sort skipped)",
+    "C15-6": "a complex u or v that is non-zero but has sum(x_i**2) == 0 exactly ([1, 1j, 0], [1+1j, 1-1j]): dropped as a 'zero vector'",
+    "C16-6": "an aggregation module with both AggScaling and an AggActiveSet that removes entries on the side of the scaled extreme: scaling applied to the whole vector instead of the active entries",
+    "C17-6": "two or more variable signals whose initial state is the same array object, or a SignalSlice variable with an index array (in-place write-back)",
+    "C18-6": "a complex base state without sensitivity whose first sensitivity operation is an assignment through a slice (real-valued zero allocation)",
+    "C19-6": "a perturbed input Signal created with a pre-allocated sensitivity (kept and zeroed in place by reset): stored analytical values alias that buffer",
+    "C20-6": "a written array of more than 16384 float32 values (domains from about 131x127 elements, 3-component nodal vectors on 22x19x17): base64 encoded in 64 KiB chunks",
     "C20-1": "scale != 1 and at least two writes with the same DomainDefinition (element_size view scaled in place): Spacing wrong from the second file on",
 }
 
